@@ -157,7 +157,7 @@ def seg_bijection(tracks):
 
 
 # C08
-def regionprops_values(tracks, fresh_factory=None):
+def regionprops_values(tracks, fresh_factory=None, only=None):
     """Compare every enabled regionprops feature of every node with (i) plain numpy for
     area/pos and (ii) a from-scratch bulk computation on a copy of the same array."""
     out = []
@@ -171,6 +171,8 @@ def regionprops_values(tracks, fresh_factory=None):
     if ann is None:
         return out, ncmp
     enabled = list(ann.features)
+    if only is not None:
+        enabled = [k for k in enabled if k in only]
     if not enabled:
         return out, ncmp
     times, _ = graph_view(tracks)
